@@ -352,6 +352,8 @@ class Gen(object):
                     f.abbrev = self.fname(used, name[:1] + r.choice("abcxyz"))
                 if self.p["allow_requires"] and t.kind in ("uint", "int") and r.random() < 0.1:
                     f.requires = op(r.choice(["<", "<=", ">=", "!="]), ref("this"), num(r.choice([0, 1, 10, 100, 200])))
+                if self.p["text"] and (cond is not None or nbytes > 2) and r.random() < 0.4:
+                    f.text_output = r.choice(["Skip", "Emit"])
                 fields.append(f)
                 if cond is None:
                     nm = name
